@@ -349,8 +349,8 @@ func ruleTailCleared(c *Ctx, r *R) {
 		}
 		pf.Instr = func(f *ssa.Function, in ssa.Instruction, q int) (StateSet, bool) {
 			if call, ok := in.(*ssa.Call); ok {
-				if cal := staticCallee(&call.Call); cal != nil && (cal.Name() == "Clear" || cal.Name() == "Fill") && isTailOf(call.Call.Args[0]) {
-					if cal.Name() == "Clear" || (len(call.Call.Args) == 2 && isZeroValue(call.Call.Args[1])) {
+				if cal := staticCallee(&call.Call); cal != nil && (fname(cal) == "Clear" || fname(cal) == "Fill") && isTailOf(call.Call.Args[0]) {
+					if fname(cal) == "Clear" || (len(call.Call.Args) == 2 && isZeroValue(call.Call.Args[1])) {
 						return ss(1), true
 					}
 				}
@@ -448,7 +448,7 @@ var _ = late(func() {
 				var shuffled ssa.Value
 				instrs(fn, func(b *ssa.BasicBlock, i int, in ssa.Instruction) {
 					if call, ok := in.(*ssa.Call); ok {
-						if cal := staticCallee(&call.Call); cal != nil && cal.Name() == "rShuffle" {
+						if cal := staticCallee(&call.Call); cal != nil && fname(cal) == "rShuffle" {
 							shuffled = call.Call.Args[len(call.Call.Args)-1]
 						}
 					}
